@@ -64,9 +64,16 @@ def schemes():
     return out
 
 
-def holstein(nmol=2, nph=1, scheme=2, nlev=3, variant=0):
+def holstein(nmol=2, nph=1, scheme=2, nlev=3, variant=0, nonsimple=False):
     from renormalizer.model import HolsteinModel, Mol, Phonon
     from renormalizer.utils import Quantity
+    if nonsimple:
+        # modes whose frequency changes upon excitation (ground / excited frequency differ)
+        mols = []
+        for i in range(nmol):
+            phs = [Phonon([Quantity([0.7, 1.1][k]), Quantity([1.0, 0.8][k])], [Quantity(0), Quantity([0.9, -0.5][k])], nlev) for k in range(nph)]
+            mols.append(Mol(Quantity(0.3 + 0.2 * i), phs))
+        return HolsteinModel(mols, Quantity(0.4), scheme=scheme)
     oms = [0.7, 1.1][:nph]
     ds = [0.9, -0.5][:nph] if variant == 0 else [0.4, 0.8][:nph]
     mols = []
@@ -113,6 +120,8 @@ def cases(tier, seed):
                 for xk in ("real", "imag", "negreal"):
                     for shift in (0.0, 0.3, -0.3):
                         yield {"k": "exact_propagator", "scheme": scheme, "nmol": nmol, "nph": nph, "space": space, "x": xk, "shift": shift}
+                        if (nmol, nph) in ((1, 1), (2, 2)) and shift != -0.3:
+                            yield {"k": "exact_propagator", "scheme": scheme, "nmol": nmol, "nph": nph, "space": space, "x": xk, "shift": shift, "nonsimple": True}
     for scheme in (2, 4):
         for space in ("GS", "EX"):
             for off in (0.0, 0.3, -1.1):
@@ -377,7 +386,7 @@ def run_thermalprop_exact_init(desc, seed):
 def run_exact_propagator(desc):
     from renormalizer.mps import Mpo
     from renormalizer.utils.elementop import construct_ph_op_dict
-    model = holstein(desc["nmol"], desc["nph"], desc["scheme"], 3)
+    model = holstein(desc["nmol"], desc["nph"], desc["scheme"], 3, nonsimple=desc.get("nonsimple", False))
     x = {"real": 0.37, "negreal": -0.8, "imag": -0.6j}[desc["x"]]
     shift = desc["shift"]
     viol = {}
@@ -396,13 +405,15 @@ def run_exact_propagator(desc):
             ops = construct_ph_op_dict(b.nbas)
             h = ops[r"b^\dagger b"] * ph.omega[0]
             if desc["space"] == "EX":
-                h = h + ops[r"b^\dagger + b"] * ph.term10
+                # excited-state surface in the ground-state oscillator basis: -w_e^2 d x + 1/2 (w_e^2 - w_g^2) x^2, x = (b^+ + b)/sqrt(2 w_g)
+                h = h + ops[r"b^\dagger + b"] * (-ph.omega[1] ** 2 * ph.dis[1] / np.sqrt(2 * ph.omega[0]))
+                h = h + ops[r"(b^\dagger + b)^2"] * ((ph.omega[1] ** 2 - ph.omega[0] ** 2) / (4 * ph.omega[0]))
             mats.append(scipy.linalg.expm(x * h))
         else:
             mats.append(np.eye(b.nbas))
     ref = kron_all(mats) * np.exp(shift * x)
     if got.shape != ref.shape or not close(got, ref, 1e-10):
-        add(viol, f"C10:exact_propagator:{desc['space']}:scheme{desc['scheme']}", f"{desc}: differs from expm(x (H_loc + shift)) by rel {rel_err(got, ref):.2e}")
+        add(viol, f"C10:exact_propagator:{desc['space']}:scheme{desc['scheme']}" + (":frequency-changing-modes" if desc.get("nonsimple") else ""), f"{desc}: differs from expm(x (H_loc + shift)) by rel {rel_err(got, ref):.2e}")
     if max(P.bond_dims) != 1:
         add(viol, "C10:exact_propagator:bond-dim", f"{desc}: bond dims {P.bond_dims}")
     return {"nontrivial": True, "outcome": "ep", "viol": list(viol.values()), "sample": {"desc": desc}}
